@@ -1,9 +1,12 @@
 // C20 harness: a truncated or xref-damaged file still gives up every object
 // completely written.
 //
-// Documents are written with the real Writer (no object streams).  For every
-// truncation offset 0..len (all enumerated) and for every single-section
-// corruption of the cross-reference data the harness
+// Documents are written with the real Writer (plain objects and streams; with
+// compressed object streams and a cross-reference stream in the PDF 1.7 family)
+// or laid out by hand (kinds.go: every kind of value as the top-level value of
+// an indirect object, in files of several scanner windows).  For every
+// truncation offset 0..len (all enumerated, evaluated by a few workers) and for
+// every single-section corruption of the cross-reference data the harness
 //   - runs SequentialScan / FileInfo.Read / MakeReader and records the
 //     observation (reference, offset, Broken, value) in impl.obs,
 //   - runs the property's oracle directly (every object whose endobj lies within
@@ -22,12 +25,15 @@ import (
 	"errors"
 	"fmt"
 	"io"
+	"os"
 	"regexp"
 	"runtime"
+	"runtime/debug"
 	"sort"
 	"strings"
 	"sync"
 	"sync/atomic"
+	"time"
 
 	"seehuhn.de/go/pdf"
 	"seehuhn.de/go/pdf/verifharness/common"
@@ -861,6 +867,15 @@ func main() {
 	e := common.New(20)
 	g := &generator{e: e}
 	t := &runner{e: e}
+	// the live heap is tiny and the scans allocate a buffer per object: collect when 512 MB
+	// have been allocated, not after every few MB
+	debug.SetGCPercent(-1)
+	debug.SetMemoryLimit(512 << 20)
+	t0 := time.Now()
+	lap := func(what string) {
+		fmt.Fprintf(os.Stderr, "c20 harness: %-28s %5.1fs\n", what, time.Since(t0).Seconds())
+		t0 = time.Now()
+	}
 
 	// corpus: marker text (no EOL before it) where Find opens a new window
 	for _, m := range []string{"2 0 obj (two) endobj ", "7 0 obj (spurious) endobj ", "trailer ", "xref "} {
@@ -868,6 +883,7 @@ func main() {
 		t.allCutsSparse(d, []int{len(d.data), len(d.data) - 1, 1100, 1000, 990})
 	}
 
+	lap("window corpus")
 	// streams >= 1024 bytes written to a sink that cannot seek get an indirect /Length whose
 	// object follows the stream: between the stream's endobj and the length object's endobj
 	// the extent has to be recovered by searching for endstream.  Sweep the body length so that
@@ -888,11 +904,13 @@ func main() {
 		}
 		t.allCutsSparse(d, cuts)
 	}
+	lap("length sweep")
 	// the same family under the enumeration of all cuts
 	for _, n := range []int{1024 + 977, 1024 + 1500}[:e.Pick(1, 2)] {
 		t.allCuts(g.sweepDoc(n))
 	}
 
+	lap("length sweep, all cuts")
 	// many streams with an indirect /Length (>= 1024 bytes each, sink that cannot seek), one of
 	// them with hostile lines (`endstream`, `endobj` at the beginning of a line): only the
 	// resolved /Length delimits it.  The full file and cuts where its length object is present.
@@ -908,6 +926,7 @@ func main() {
 		}
 	}
 
+	lap("many streams")
 	// every kind of value as the top-level value of an indirect object (null, the empty
 	// composites, references, nested composites, streams with every form of /Length, object
 	// streams), in files of several scanner windows with many small objects: ALL cuts
@@ -916,7 +935,7 @@ func main() {
 		pad, rot, size, fillers int
 		xstm                    bool
 	}
-	kds := []kd{{0, 0, 2200, 1, false}, {37, 11, 3300, 0, true}, {333, 23, 4100, 2, true}}
+	kds := []kd{{0, 0, 2200, 1, false}, {37, 11, 3300, 0, true}, {333, 23, 3000, 2, true}}
 	if e.Thorough {
 		for p := 1; p <= 32; p++ {
 			kds = append(kds, kd{p * 32, p * 5, 2300 + 29*p, p % 4, p%2 == 0})
@@ -927,25 +946,29 @@ func main() {
 		res.add(d)
 		t.allCuts(d)
 	}
+	lap("value kinds, all cuts")
 	// the same kinds written by the Writer into compressed object streams (PDF 1.5+)
 	for i := 0; i < e.Pick(2, 12); i++ {
 		d := g.compressedDoc(i)
 		res.add(d)
 		t.allCuts(d)
 	}
-	e.Sample(1, map[string]any{"value-kind files": len(kds), "residues of object headers modulo 1024 covered": res.count()})
+	e.Sample(3, map[string]any{"value-kind files": len(kds), "residues of object headers modulo 1024 covered": res.count()})
 
+	lap("compressed, all cuts")
 	// incremental updates (hand-written after a Writer document): which trailer MakeReader uses
 	for i := 0; i < e.Pick(2, 40); i++ {
 		t.allCuts(g.updateDoc())
 	}
 
+	lap("updates, all cuts")
 	nDocs := e.Pick(10, 400)
 	for i := 0; i < nDocs; i++ {
 		d := g.randomDoc()
 		t.allCuts(d)
 		t.corruptions(d)
 	}
+	lap("random documents")
 	e.Finish("a case is non-trivial when at least one object is complete within the available bytes (truncations) or always (xref corruptions); distinct by the last 40 available bytes / by file", nil)
 }
 
